@@ -20,7 +20,8 @@ class C11(SimCheck):
         "back-pressure on drain and suspension of on_state_change / on_message / on_logon / on_logout / on_disconnect / "
         "on_connect / should_replay let the heartbeat task, the reader task and application tasks overlap inside disconnect(); "
         "1 run in 4 (short heartbeat) stalls callbacks for 1.5-8 intervals of simulated time; 1 run in 10 is the scenario 'a resend reply in "
-        "progress when the session ends' over a pre-filled outbound journal; gate invariants "
+        "progress when the session ends' over a pre-filled outbound journal (sharp variant: acceptor, an application disconnect and the "
+        "peer's reconnect arrive while should_replay() is parked); gate invariants "
         "are evaluated at every callback and every transport write, a per-stimulus judgement when the stimulus ran alone; "
         "non-trivial = >= 3 chooser actions or a fault; distinct = distinct digest of the (event kind, actor) sequence"
     )
